@@ -16,7 +16,11 @@ Decided:
  * after a checksum-integrity error the result is a module only if that single cache-bypassing retry delivered one; otherwise it is
    an integrity error (HttpsChecksumIntegrity, or Jsr/ContentChecksumIntegrity inside a package) — never a module, never silence;
  * a redirect answer is rejected when version info is present (RedirectInPackage) or a checksum is known (HttpsChecksumIntegrity);
- * a manifest that lists the file with an unusable checksum, or a failed manifest load, is an error before any loader call."""
+ * a manifest that lists the file with an unusable checksum, or a failed manifest load, is an error before any loader call.
+The same obligations one and two levels up (Builder::load_pending_module: lockfile checksum of the requested specifier; Builder::
+load_jsr_subpath: manifest checksum on the cache-only probe and on the content loads), and Builder::visit: a new remote
+non-declaration module gets the digest of its stored bytes recorded exactly once and never over an existing lockfile entry; a
+deferred content load carries the manifest checksum."""
 import z3, re
 from ..engine import *
 from ..models import *
@@ -381,3 +385,123 @@ def differential(mir, seed, count):
             bad += 1
             if len(examples) < 3: examples.append({'op': oj, 'interpreter': dec, 'real': real})
     return {'cases': count, 'operations_compared': count, 'mismatches': bad, 'examples': examples, 'seconds': round(time.time() - t0, 1), 'seed': seed}
+
+# ----------------------------------------------------------------------------------------------------------------------------------
+# Builder::visit — what happens when a load completes: lockfile write for new remote modules, deferred content load of a registry
+# file, entry for external / asset answers, redirect answers handed back to load_with_redirect_count.
+def build_visit(mir, cube):
+    sym = Sym()
+    st, en = dict(mir.structs), mir.enums
+    MT = en['MediaType']
+    eng = Engine(mir, usize_bits=8, unroll=4)
+    scheme = sym.bv('specifier_scheme', 8, lt=len(SCHEMES))
+    eng.cfg['N'] = 2; eng.cfg['scheme'] = [scheme, scheme]
+    PIR = en['PendingInfoResponse']; MSI = en['ModuleSourceAndInfo']
+    from .pmsi import variant_fields
+    vf_pir, vf_msi = variant_fields(mir, 'PendingInfoResponse'), variant_fields(mir, 'ModuleSourceAndInfo')
+    kind = cube['response']        # 'Module' | 'External' | 'Redirect'
+    is_root, is_asset, in_dyn, was_dyn_root = sym.bool('is_root'), sym.bool('is_asset'), sym.bool('in_dynamic_branch'), sym.bool('was_dynamic_root')
+    has_vi, has_pending_load, has_locker, locker_has, has_ref = sym.bool('version_info_present'), sym.bool('content_load_deferred'), sym.bool('has_locker'), sym.bool('lockfile_has_entry'), sym.bool('has_referrer')
+    mclass = sym.bv('module_class', 8, lt=3)          # Json / Js / Wasm
+    mt = sym.bv('media_type', 8, lt=len(MT))
+    pre_present, pre_pending = sym.bool('entry_exists'), sym.bool('entry_is_pending')
+    CK_MANIFEST, TEXT, WASM = 2, 7, 8
+    rng = Agg([{'specifier': UrlV(BV(1, 8))}.get(f, O) for f in st['Range']])
+    src = Agg([{'text': Agg([BV(TEXT, 8)])}.get(f, O) for f in st['ModuleTextSource']])
+    def msi_variant(name):
+        vals = {'specifier': UrlV(BV(0, 8)), 'media_type': EnumV(mt, {}), 'source': src if name != 'Wasm' else Agg([BV(WASM, 8)]), 'source_dts': O, 'module_info': O, 'mtime': none(), 'maybe_headers': none()}
+        return Agg([vals[f] for f in vf_msi[name]])
+    msi = EnumV(mclass, {MSI.index(n): msi_variant(n) for n in ('Json', 'Js', 'Wasm')})
+    pend_load = opt(has_pending_load, BoxV(Agg([Agg([BV(CK_MANIFEST, 8)]), Opaque('embedded module info')])))
+    resp_vals = {'External': {'specifier': UrlV(BV(0, 8)), 'is_root': is_root, 'is_asset': is_asset},
+                 'Module': {'specifier': UrlV(BV(0, 8)), 'module_source_and_info': msi, 'pending_load': pend_load, 'is_root': is_root},
+                 'Redirect': {'count': sym.bv('redirect_count', 8), 'specifier': UrlV(BV(1, 8)), 'maybe_attribute_type': none(), 'is_asset': is_asset, 'is_dynamic': in_dyn, 'is_root': is_root}}
+    response = EnumV(BV(PIR.index(kind), 8), {PIR.index(kind): Agg([resp_vals[kind][f] for f in vf_pir[kind]])})
+    loads, lock_writes, roots, reloads, queued = [], [], [], [], []
+    def stub_load(e, c, a, g):
+        o = a[2]; F = st['LoadOptions']; ck = o.f[F.index('maybe_checksum')]; p = opt_payload(ck)
+        loads.append((g, uid(e, a[1]), o.f[F.index('cache_setting')].tag, opt_is_some(ck), p.f[0] if isinstance(p, Agg) else p, o.f[F.index('in_dynamic_branch')], o.f[F.index('was_dynamic_root')]))
+        return Opaque('content future')
+    def stub_gen(e, c, a, g):
+        v = a[0]
+        while isinstance(v, Ptr): v = e.load(v)
+        while isinstance(v, Agg) and not z3.is_bv(v.f[0]): v = v.f[0]
+        return Agg([v.f[0] + 100])           # the digest of the bytes with token t is the token t + 100
+    def stub_set(e, c, a, g):
+        ck = a[2]
+        while isinstance(ck, Agg) and not z3.is_bv(ck.f[0]): ck = ck.f[0]
+        lock_writes.append((g, uid(e, a[1]), ck.f[0])); return UNIT
+    ident = lambda e, c, a, g: a[0]
+    eng.cfg['stubs'] = [
+        (re.compile(r'<dyn .*Loader as .*Loader>::load'), stub_load),
+        (re.compile(r'.*LoaderChecksum::r#gen|.*LoaderChecksum::gen'), stub_gen),
+        (re.compile(r'<dyn .*Locker as .*Locker>::has_remote_checksum'), lambda e, c, a, g: locker_has),
+        (re.compile(r'<dyn .*Locker as .*Locker>::set_remote_checksum'), stub_set),
+        (re.compile(r'<dyn .*JsrUrlProvider as .*JsrUrlProvider>::package_url_to_nv'), lambda e, c, a, g: opt(has_vi, Opaque('nv'))),
+        (re.compile(r'Builder::<.*>::visit_module'), lambda e, c, a, g: EnumV(BV(en['ModuleSlot'].index('Module'), 8), {en['ModuleSlot'].index('Module'): Agg([Opaque('visited module')])})),
+        (re.compile(r'Builder::<.*>::load_with_redirect_count'), lambda e, c, a, g: (reloads.append((g, a[1], a[2])), UNIT)[1]),
+        (re.compile(r'<\{async block@.*\} as FutureExt>::boxed_local.*'), ident),
+        (re.compile(r'FuturesUnordered::<.*>::push|FuturesOrdered::<.*>::push_back|Vec::<.*>::push'), lambda e, c, a, g: (queued.append((g, a[1])), UNIT)[1]),
+        (re.compile(r'<impl str>::as_bytes|(core::|std::)?str::<impl str>::as_bytes|str::as_bytes|<Arc<\[u8\]> as Deref>::deref|<Arc<str> as Deref>::deref'), ident),
+        (re.compile(r'format|.*fmt::Arguments::<.*>::new.*|.*fmt::rt::Argument::<.*>::new_display::<.*>|assert_failed.*|.*panic.*'), lambda e, c, a, g: Opaque('text')),
+    ]
+    slot0 = EnumV(IF(pre_pending, BV(en['ModuleSlot'].index('Pending'), 8), BV(en['ModuleSlot'].index('Module'), 8)),
+                  {en['ModuleSlot'].index('Pending'): Agg([sym.bool('pending_is_asset')]), en['ModuleSlot'].index('Module'): Agg([Opaque('earlier module')]), en['ModuleSlot'].index('Err'): Agg([O])})
+    graph = Root(Agg([{'module_slots': MapModel([pre_present, FALSE], [slot0, None])}.get(f, O) for f in st['ModuleGraph']]), 'graph')
+    state = Agg([{'jsr': Agg([{'pending_content_loads': Opaque('content loads')}.get(f, O) for f in st['PendingJsrState']])}.get(f, O) for f in st['PendingState']])
+    builder = Agg([{'graph': Ptr([(TRUE, (graph, ()))]), 'loader': Opaque('loader'), 'jsr_url_provider': Opaque('jsr url provider'), 'in_dynamic_branch': in_dyn, 'was_dynamic_root': was_dyn_root,
+                    'locker': opt(has_locker, ref_to(Opaque('locker'), 'locker')), 'state': state, 'resolved_roots': SetModel([FALSE, FALSE], BV(0, 8))}.get(f, O) for f in st['Builder']])
+    broot = Root(builder, 'builder')
+    eng.call(mir.find('Builder', 'visit'), [Ptr([(TRUE, (broot, ()))]), response, opt(has_ref, rng), none(), opt(has_vi, ref_to(Opaque('version info'), 'vi'))], TRUE)
+    post = graph.val.f[st['ModuleGraph'].index('module_slots')]
+    roots_after = broot.val.f[st['Builder'].index('resolved_roots')]
+    SL = en['ModuleSlot']
+    qs = [Query('no-panic', Or(g for _, g in eng.panics))]
+    for fname_ in sorted({f for f, _ in eng.exceeded}): qs.append(Query('unwinding:' + fname_.split('>::')[-1], Or(g for f, g in eng.exceeded if f == fname_), kind='unwind'))
+    wrote = Or(g for g, _, _ in lock_writes)
+    class VW:
+        has_fc = True
+        def to_json(self, m): return {'positions': True}
+    if kind == 'Module':
+        class OpLock:
+            def op_json(self, m):
+                js = ev(m, mclass) == MSI.index('Js')
+                return {'op': 'visit_lock', 'scheme': SCHEMES[ev(m, scheme)], 'ext': ('d.ts' if MT[ev(m, mt)] == 'Dts' else 'ts') if js else 'json', 'lockfile_has_entry': ev(m, locker_has)}
+            def decode(self, m):
+                w_ = ev(m, wrote)
+                good = any(ev(m, g) and ev(m, sp) == 0 and ev(m, tok) == ev(m, bytes_tok) + 100 for g, sp, tok in lock_writes)
+                return {'is_module': True, 'written': w_, 'digest_of_the_module_bytes': good if w_ else None}
+        # natively rebuildable: an ordinary module (TypeScript, a .d.ts declaration, or JSON) behind https / http / file, locker present
+        real = [z3.Not(has_pending_load), z3.Not(has_vi), has_locker, z3.Or([scheme == SCHEMES.index(x) for x in ('https', 'http', 'file')]), z3.Not(pre_present), z3.Not(is_root),
+                z3.Or(mclass == MSI.index('Json'), z3.And(mclass == MSI.index('Js'), z3.Or(mt == MT.index('TypeScript'), mt == MT.index('Dts'))))]
+        lkw = dict(ops=[OpLock()], world=VW(), realizable=real)
+        is_decl = Or(z3.And(mclass == MSI.index('Js'), mt == MT.index(x)) for x in ('Dts', 'Dmts', 'Dcts'))
+        remote = z3.Or(scheme == SCHEMES.index('https'), scheme == SCHEMES.index('http'))
+        must_write = z3.And(z3.Not(has_pending_load), z3.Not(has_vi), z3.Not(is_decl), remote, has_locker, z3.Not(locker_has))
+        bytes_tok = z3.If(mclass == MSI.index('Wasm'), z3.BitVecVal(WASM, 8), z3.BitVecVal(TEXT, 8))
+        qs += [Query('a-new-remote-non-declaration-module-gets-its-checksum-recorded-exactly-once', z3.Or(wrote != must_write, Or(z3.And(lock_writes[i][0], lock_writes[j][0]) for i in range(len(lock_writes)) for j in range(i + 1, len(lock_writes)))), **lkw),
+               Query('an-existing-lockfile-entry-is-never-overwritten', z3.And(locker_has, wrote), **lkw),
+               Query('the-recorded-checksum-is-the-digest-of-the-bytes-of-that-module-under-its-specifier', Or(z3.And(g, z3.Or(sp != 0, tok != bytes_tok + 100)) for g, sp, tok in lock_writes), **lkw),
+               Query('a-deferred-content-load-asks-the-loader-once-with-the-manifest-checksum',
+                     z3.Or(Or(g for g, *_ in loads) != has_pending_load, Or(z3.And(l[0], z3.Or(l[1] != 0, z3.Not(l[3]), l[4] != CK_MANIFEST, l[2] != en['CacheSetting'].index('Use'), l[5] != in_dyn, l[6] != was_dyn_root)) for l in loads),
+                           Or(z3.And(loads[i][0], loads[j][0]) for i in range(len(loads)) for j in range(i + 1, len(loads))))),
+               Query('the-module-entry-is-stored-under-its-specifier', z3.Not(z3.And(post.present[0], post.vals[0].tag == SL.index('Module'))) if isinstance(post.vals[0], EnumV) else z3.BoolVal(True)),
+               Query('a-root-is-remembered-as-resolved', roots_after.mem[0] != is_root),
+               Query('witness-checksum-recorded', wrote, expect='sat', kind='witness', **lkw),
+               Query('witness-declaration-file-not-recorded', z3.And(is_decl, remote, has_locker, z3.Not(locker_has), z3.Not(has_vi), z3.Not(has_pending_load)), expect='sat', kind='witness', **lkw),
+               Query('witness-deferred-content-load', Or(g for g, *_ in loads), expect='sat', kind='witness')]
+    elif kind == 'External':
+        pv = post.vals[0]
+        ext_ok = z3.And(post.present[0], pv.tag == SL.index('Module')) if isinstance(pv, EnumV) else z3.BoolVal(False)
+        qs += [Query('no-lockfile-write-and-no-load-for-an-external-answer', z3.Or(wrote, Or(g for g, *_ in loads))),
+               Query('a-pending-or-absent-entry-becomes-the-external-module-an-earlier-module-is-kept',
+                     z3.Or(z3.And(z3.Or(z3.Not(pre_present), pre_pending), z3.Not(ext_ok)), z3.And(pre_present, z3.Not(pre_pending), z3.Not(z3.And(post.present[0], pv.tag == SL.index('Module'))))))]
+    else:
+        qs += [Query('no-lockfile-write-and-no-load-for-a-redirect-answer', z3.Or(wrote, Or(g for g, *_ in loads))),
+               Query('a-redirect-answer-is-handed-back-to-the-load-step-once-with-its-count', z3.Or(z3.Not(Or(g for g, *_ in reloads)), Or(z3.And(g, c_ != resp_vals['Redirect']['count']) for g, c_, o in reloads), z3.BoolVal(len(reloads) != 1)))]
+    return eng, VW(), list(sym.cons), qs
+
+_cubes0, _name0, _build0 = cubes, cube_name, build
+def cubes(tier, has_fc): return _cubes0(tier, has_fc) + [{'visit': True, 'response': r} for r in ('Module', 'External', 'Redirect')]
+def cube_name(c): return 'visit_' + c['response'].lower() if c.get('visit') else _name0(c)
+def build(mir, cube): return build_visit(mir, cube) if cube.get('visit') else _build0(mir, cube)
